@@ -100,6 +100,14 @@ def unknown_external(I, st, callee, target, args, ctx):
     k = xkeys(callee, target)[0]
     I.unknown_ext.setdefault(k, []).append((ctx["body"]["def"], ctx["term"].get("loc")))
     st.event("extcall", k, tuple((a.cell, a.path) if isinstance(a, VRef) else None for a in args))
+    # whatever the callee can reach through a `&mut` argument is unknown afterwards (a `retain`
+    # on the list a decoder has just parsed must not leave the list looking as parsed)
+    for a in args:
+        if isinstance(a, VRef) and a.mut:
+            try:
+                I.write_loc(st, a.cell, a.path, VOpaque("havoc:" + k, None))
+            except Unanalysable:
+                raise
     dest = ctx["term"]["dest"]
     ty = ctx["body"]["locals"][dest["l"]] if not dest["p"] else None
     return [(st, VOpaque("ext:" + k, ty))]
